@@ -9,6 +9,7 @@
 #include "ref_codec.h"
 #include "oracle_crc.h"
 #include "st_codecs.h"
+#include "hugestr.h"
 #include "early_battery.h"
 #include <memory>
 
@@ -381,6 +382,51 @@ static void build(vf::Plan &plan, const vf::Opts &o)
                    },
                    [](uint64_t i) { return strf("adjacent layout case %llu", (unsigned long long)i); });
     }
+    // ---- an array of more than 2^31 bytes (result positions beyond 2^32): the result block shares a 16 MiB window of real memory
+    // (alloc.h), so it is checked where the last writers are - the final window and the private tail
+#ifndef VF_ASAN
+    {
+        auto &st = plan.stage("huge array: hex_encode and base64_encode of 2^31+64 bytes (zeros with a 64-byte marker tail), result checked over its last 16 MiB", 2,
+                              [](uint64_t i, Ctx &c) {
+                                  const size_t N = (size_t(1) << 31) + 64, W = vf::AllocState::ALIAS_WINDOW;
+                                  hugestr::LazyBytes in(N);
+                                  if (!in.p) return;
+                                  memset(in.p + N - 64, 0xEE, 64);
+                                  in.p[N - 65] = 0x5A;
+                                  vf::Outcome o = vf::guard([&] {
+                                      hugestr::Scope scope(true);
+                                      ST::string r = i == 0 ? ST::hex_encode(in.p, N) : ST::base64_encode(in.p, N);
+                                      const size_t want_size = i == 0 ? 2 * N : 4 * ((N + 2) / 3);
+                                      VF_COUNT("validated");
+                                      if (r.size() != want_size) {
+                                          c.fail(strf("%s:huge-array:length", i == 0 ? "hex_encode" : "base64_encode"), strf("size() is %zu, expected %zu", r.size(), want_size));
+                                          return;
+                                      }
+                                      if (r.c_str()[want_size] != 0) c.fail(strf("%s:huge-array:terminator", i == 0 ? "hex_encode" : "base64_encode"), "no terminator");
+                                      // expected text of the last window: computed from the input bytes that produce it
+                                      const size_t aliased = (want_size + 1) & ~size_t(4095);
+                                      size_t from = aliased - W + 4096;  // final writers of the window (one page of slack for the seam)
+                                      from -= from % 12;                // a position where both codecs start a group
+                                      std::string want;
+                                      if (i == 0) want = ref::hex_encode((const unsigned char *)in.p + from / 2, N - from / 2);
+                                      else want = ref::b64_encode((const unsigned char *)in.p + from / 4 * 3, N - from / 4 * 3);
+                                      VF_COUNT("validated");
+                                      if (want.size() != want_size - from || memcmp(r.c_str() + from, want.data(), want.size()) != 0) {
+                                          size_t k = 0;
+                                          while (k < want.size() && r.c_str()[from + k] == want[k]) ++k;
+                                          c.fail(strf("%s:huge-array:text", i == 0 ? "hex_encode" : "base64_encode"),
+                                                 strf("%zu bytes: character %zu of %zu is 0x%02X, expected 0x%02X", N, from + k, want_size, (unsigned char)r.c_str()[from + k],
+                                                      k < want.size() ? (unsigned char)want[k] : 0));
+                                      }
+                                  });
+                                  if (!o.ok()) c.fail(strf("huge-array:%s", vf::outkind_name(o.kind)), o.str());
+                                  vf::huge_reset();
+                                  c.nontrivial();
+                              },
+                              [](uint64_t i) { return std::string(i ? "base64_encode of 2^31+64 bytes" : "hex_encode of 2^31+64 bytes"); });
+        st.case_timeout_s = 300;
+    }
+#endif
     vf_early::add_stage(plan);
 }
 
